@@ -855,6 +855,14 @@ impl BigDecimal {
         let mut factorial = BigInt::one();
 
         for n in 2.. {
+            #[cfg(bigdecimal_verif)]
+            {
+                // verification hook: turn non-termination into a decided outcome
+                if n > 200_000 {
+                    panic!("bigdecimal_verif: exp series iteration cap exceeded");
+                }
+            }
+
             term *= self;
             factorial *= n;
             // ∑ term=x^n/n!
